@@ -340,7 +340,7 @@ theorem rewind_ledger (E : Nat) (rf : Option Nat) (rp slot : Nat) (s : St) : Led
   · exact .refl s
 
 /-- **Every operation** keeps the ledger in step with the chunk list. -/
-theorem sysStep_ledger {E} (hE : EnvOK E) (y : Sys) (op : Op) (inv : LiveInv E y) (hv : OpValid y op)
+theorem sysStep_ledger {E} (hE : EnvOK E) (y : Sys) (op : Op) (inv : LiveInv E y) (hv : OpValidFull y op)
     (hl : Ledger y.st) (hne : (sysStep E op y).2 ≠ .envBad) : Ledger (sysStep E op y).1.st := by
   obtain ⟨s, live⟩ := y
   simp only [sysStep] at hne ⊢
@@ -435,7 +435,7 @@ theorem sysStep_ledger {E} (hE : EnvOK E) (y : Sys) (op : Op) (inv : LiveInv E y
         | bad w => simp only [bindO]; exact la.preserves hl
         | envBad => simp only [bindO]; exact la.preserves hl
   | atw sz al ok inner f =>
-    obtain ⟨hA, hlay, hin, hok⟩ := hv
+    obtain ⟨hA, hlay, hin⟩ := hv
     have sp := allocMaybe_spec f s hE inv.wf hA hlay
     simp only [step, allocTryWith] at hne ⊢
     have hne1 : (allocMaybe E f sz al s).2 ≠ .envBad := by
@@ -454,7 +454,7 @@ theorem sysStep_ledger {E} (hE : EnvOK E) (y : Sys) (op : Op) (inv : LiveInv E y
             intro hh; subst hh
             simp only [bindO, hri, Res.ofOutcome] at hne
             exact hne rfl
-          have lr := runInner_ledger hE inner s1 _ [] inv1 (fun i hi => by have := hin i hi; cases i <;> exact this)
+          have lr := runInner_ledger hE inner s1 _ [] inv1 hin
             (by rw [hri]; exact hne2)
           rw [hri] at lr
           simp only at lr
